@@ -288,3 +288,22 @@ func retryOne(c *core.Ctx, fn *core.Fn, callee *types.Func) RetryVerdict {
 	}
 	return res
 }
+
+// MayReturnIdle: some path of a (b []byte, ...) (n int, err error) operation
+// returns (0, nil) although the buffer is not known to be empty. Only then do
+// its callers have to retry after a wake-up.
+func MayReturnIdle(res *SymResult) bool {
+	if res == nil || len(res.Params) == 0 {
+		return true
+	}
+	nonEmpty := VCmp(token.GEQ, VLenOf(res.Params[0]), VInt(1))
+	for _, t := range res.Traces {
+		if !t.Normal() || len(t.Results) != 2 {
+			continue
+		}
+		if t.Facts.IsZero(t.Results[0]) && t.Facts.IsNil(t.Results[1]) && !t.Facts.Refuted(nonEmpty) {
+			return true
+		}
+	}
+	return false
+}
